@@ -220,7 +220,10 @@ def check_case(case, scratch, stats=None):
     # rejected once must not be usable afterwards, and one that was accepted stays subject to its chain
     if k is not None and k >= 1 and not case['dc']:
         qs = [q for q in queries(info, depth, sib) if not only or q[0] == only or True]
-        for order, seq in (('fwd', qs), ('rev', qs[::-1])):
+        orders = (('fwd', qs), ('rev', qs[::-1]))
+        if case.get('tier') == 'quick' and depth >= 3:
+            orders = orders[:1] if (k + depth) % 2 else orders[1:]      # alternate to halve the cost
+        for order, seq in orders:
             shared = gem.loader(root)
             for label, need, fn in seq:
                 maxlevel, needs_sib = need
@@ -400,7 +403,7 @@ def run_shard(spec, tier, seed, scratch):
                     continue    # nothing changed at that level (cannot happen for these kinds)
                 case = {'tree': t.to_json(), 'base': base.to_json(), 'depth': depth, 'sib': sib,
                         'k': k, 'kind': kind, 'j': j, 'broken': broken, 'dc': dc, 'info': jinfo,
-                        'broken_is_sib': broken_is_sib}
+                        'broken_is_sib': broken_is_sib, 'tier': tier}
                 vs = check_case(case, scratch, stats)
                 stats.case((spec, mh, sib, kind, j, k), nontrivial=(k >= 1 and not dc))
                 if k >= 1 and len(stats.samples) < 2:
